@@ -245,6 +245,27 @@ func runC20(w *World, r *Report) {
 		r.seen(shortFn(fn))
 		noDroppedErrors(w, r, "no-dropped-error", fn)
 	}
+	// a file that is renamed over the wallet file belongs to that wallet alone: its name is made from the whole wallet
+	// path (or is a unique temporary); a name shared by the wallets of one directory lets one wallet land in another's file
+	r.rule("scratch-file-is-per-wallet", "the source of every os.Rename in the wallet file helpers is a unique temporary file (os.CreateTemp) or a name computed from the complete destination path, never from its directory alone", 0)
+	nRen := 0
+	for _, fn := range w.RepoFuncs("fileoperations") {
+		for _, c := range callsTo(fn, "os.Rename") {
+			nRen++
+			_, a := callArgs(c)
+			isDst := func(v ssa.Value) bool { return sameVal(v, a[1]) || pathOf(v) == pathOf(a[1]) }
+			sh := keyShape(a[0], isDst, 0)
+			unique := strings.Contains(sh, "CreateTemp") || strings.Contains(sh, "MkdirTemp")
+			// occurrences of the destination outside a Dir(...) call
+			outside := strings.Contains(strings.ReplaceAll(strings.ReplaceAll(sh, "filepath.Dir($)", ""), "path.Dir($)", ""), "$")
+			r.check(unique || outside, "scratch-file-is-per-wallet", shortFn(fn)+"/os.Rename", lineOf(w, c), "the renamed file is this wallet's own",
+				fmt.Sprintf("the file renamed over %s is named %s: every wallet of that directory uses the same scratch file", pathOf(a[1]), sh))
+		}
+	}
+	if nRen == 0 {
+		r.ok("scratch-file-is-per-wallet", "none", "-", "no file is renamed over a wallet file")
+	}
+
 	// the saved file holds exactly the sealed bytes: writers replace the file's content
 	r.rule("save-replaces-file", "every file opened for writing on the wallet save path truncates (or exclusively creates) it, so that the file holds exactly the bytes just sealed", 2)
 	nSinks := 0
